@@ -3,6 +3,8 @@ package main
 // SSA interpreter over symbolic values (structure follows x/tools/go/ssa/interp).
 
 import (
+	"os"
+	"runtime/debug"
 	"fmt"
 	"go/constant"
 	"go/token"
@@ -295,6 +297,9 @@ func (fr *frame) run() {
 		case targetPanic:
 		default:
 			// Go-level bug in the engine: surface with context
+			if os.Getenv("SYMGO_DEBUG") != "" {
+				fmt.Fprintf(os.Stderr, "engine crash in %s: %v\n%s\n", fr.fn, r, debug.Stack())
+			}
 			panic(engineError{fmt.Sprintf("engine crash in %s: %v", fr.fn, r)})
 		}
 		fr.panicking = true
